@@ -14,7 +14,7 @@ from hypothesis import strategies as st
 
 from pbt.core import Violation, hyp_run, HarnessError
 from pbt import scenario, crash, world as W
-from pbt.node import fresh_dir, make_coin
+from pbt.node import close_leaked_handles, fresh_dir, make_coin
 from pbt.storage import Controller
 
 PROPERTY = 'C04'
@@ -164,6 +164,7 @@ def run_scenario(ctx_like, scratch, case, cuts=None, double=False, last_flush_on
         if double:
             crashed_copy = os.path.join(scratch, 'crashed')
             os.chdir(scratch)
+            close_leaked_handles(os.path.abspath(crashed_copy))
             shutil.rmtree(crashed_copy, ignore_errors=True)
             shutil.copytree(db_dir, crashed_copy)
         rec_ctl = Controller()
@@ -183,6 +184,7 @@ def run_scenario(ctx_like, scratch, case, cuts=None, double=False, last_flush_on
             for j in range(rec_ctl.count):
                 work = os.path.join(scratch, 'db2')
                 os.chdir(scratch)
+                close_leaked_handles(os.path.abspath(work))
                 shutil.rmtree(work, ignore_errors=True)
                 shutil.copytree(crashed_copy, work)
                 c2 = Controller(crash_at=j)
